@@ -23,3 +23,8 @@ type Record struct {
 	Timestamp time.Time
 	TTL       time.Duration
 }
+
+// Expired returns true if the record has a time to live that has run out.
+func (record *Record) Expired(now time.Time) bool {
+	return 0 < record.TTL && !now.Before(record.Timestamp.Add(record.TTL))
+}
